@@ -26,6 +26,14 @@ CHECKS = {
             "TLC explores MC_Ns: properly nested documents of <= L tag-level fragments (default and prefixed declarations, re-declaration, un-declaration, shadowing on one tag, prefixed attributes, empty elements) under every history of read-event / skip calls, and checks after every call that resolve_element/resolve_attribute for a pool of names (unprefixed, p:, q:, xml:, xmlns:), prefixes() and the nesting level equal the declarative scope derived from the TRUE nesting of the document. Every (document, history) is replayed on the real NsReader over slice (read_event, read_resolved_event, read_to_end, read_text), buffered and async sources; random deeper documents and histories are validated by TLC. This check found the never-popped scope after read_to_end/read_text repaired in /repo.",
             "Error-free reads of properly nested documents only (as the property states); after a namespace error the run ends. Bounded scope.",
             "DESIGN.md section 6 C05"),
+    "C06": ("TLA+ model of the documented serde mapping (SerdeModel/SerdeTypes: schema registry of the type family, SerTree) model-checked for success, well-formedness and injectivity on the domain; every generated value round-tripped through the real serializer/deserializer under all option combinations; real output parsed by the spec's reader",
+            "TLC enumerates every value of 16 family types (one per documented mapping row: attributes, elements, text, optional fields, element lists, space-separated lists, unit/newtype/struct/text enum choices, mixed lists without adjacent text items, nested structs, maps) from finite generators over a markup-heavy string pool and checks on the model that serialization succeeds on the documented domain, the document is well-formed, and distinct values have distinct documents. The harness builds each value for the Rust type (serde_json), serializes it under 3 quote levels x {plain, blanks, tab} indentation x expand-empty, deserializes with from_str and compares with the original (typed equality); the real output is additionally parsed by the SPECIFICATION's reader (TraceSerde) and compared with the model's logical document. This check found the inverted allow_primitive defect repaired in /repo.",
+            "Domain exclusions, each from the documentation: strings with leading/trailing XML whitespace, empty or blank-containing items of space-separated lists, an empty $text choice (writes no node). Number formatting is opaque. Deserialization itself is bound by observation (real round trip), the model decides the serializer side and the value space.",
+            "DESIGN.md section 6 C06"),
+    "C07": ("TLA+ model of the deserializer's event pipeline (DeSM.tla: StartTrimmer, XmlReader lookahead/drain_text) with the lemma 'never two consecutive Text events' model-checked on all token soups; the soups, their truncations and token-level mutations of serialized values run through every target type under catch_unwind",
+            "TLC checks on DeSM.tla, for every token soup of <= N tokens (tags, text, blanks, CDATA, comment, PI, DOCTYPE, known/unknown entity references, attributes, xsi:nil), that the DeEvent stream never contains two consecutive Text events - the design lemma that justifies the unreachable!() sites - ends in Eof or an error and is bounded; with the pre-repair handling of DOCTYPE (SkipDoctype = FALSE) TLC produces the counterexample text, DOCTYPE, text. Every soup is deserialized into all 20 family types and String, numbers, bool, (), Option, Vec, tuple, HashMap, IgnoredAny-containing types through from_str and from_reader under catch_unwind; token-level mutations and every-byte truncations of serialized family values as well. This check found the panic repaired in /repo.",
+            "A concrete panic is found by running the code; the model supplies the shapes and the lemma. Consumer-side logic (visitors) is exercised, not modelled.",
+            "DESIGN.md section 6 C07"),
     "C08": ("TLA+ reader spec with tiling invariant and composed writer rendering model-checked; positions and read-then-write bytes replayed on the real reader/writer; corpus trace validation",
             "TLC checks that with trimming/expansion off the bytes between consecutive positions are exactly open delimiter + payload + close delimiter of the returned event (DOCTYPE up to keyword case/spacing), that spans tile the input and the final position is its length. TLC emits for every behaviour the positions and the concatenated rendering of all events; the harness compares buffer_position after every call and the bytes produced by Writer::write_event on slice and chunked sources. Corpus and generated traces are validated by TLC.",
             "Bounded scope; Writer::write_event is specified only for events read from the input (C09 covers constructors).",
@@ -46,6 +54,18 @@ CHECKS = {
             "TLC explores documents of <= L tag-level fragments (repeated names, <a/>, '</a >', end-tag look-alikes inside comment/CDATA, truncated documents) x trim/expand configurations x skip after any Start (and flips), and checks the returned span, the position after the call, the failure kinds and the span delimiters against a reference derived from the declarative event stream. Every history is replayed on read_to_end, read_to_end_into, read_to_end_into_async and read_text with config() read back after success and failure; traces with random skip calls are validated by TLC.",
             "Skip calls are issued only right after a Start event (the documented precondition). Bounded scope.",
             "DESIGN.md section 6 C12"),
+    "C13": ("TLA+ model of the serializer's logical output (SerTree with XmlName validation) model-checked for nesting and name legality over family + hostile values; real output checked for well-formedness, legal names and equality with the model's logical document (harness and spec reader)",
+            "TLC enumerates the family values with hostile strings (blank-only, NUL, newline, '>', markup), maps with arbitrary keys, Option without skip, nested sequences, unit variants named like markup and arbitrary root tags, and checks that the model either rejects or yields a properly nested document whose names are XML names. For every value and option combination the real serializer must fail or produce output that the real reader parses without error, whose attribute lists iterate without error, whose names are legal and which reads back as exactly the model's logical document (so no payload can introduce markup: structure and names never depend on payload bytes); the real bytes are also parsed by the spec's reader in TLC. This check found the empty-name defect repaired in /repo.",
+            "For types outside the schema language the model has no opinion on acceptance (error or well-formed output are both fine).",
+            "DESIGN.md section 6 C13"),
+    "C14": ("Source.tla (chunk independence of the event stream) model-checked; every serialized family value and every token soup deserialized with from_str and with from_reader under piece sizes 1,2,3,7 and random cuts and compared",
+            "The deserializer consumes reader events only, and Source.tla shows (TLC, all cuts) that those are independent of chunking; the harness deserializes every generated family document with from_str and with from_reader over a chunked BufRead (sizes 1,2,3,7, random) and requires both to fail or both to succeed with equal values; the C07 leg repeats the comparison on token soups, truncated and mutated documents.",
+            "The buffer-reuse discipline of IoReader is bound by observation only.",
+            "DESIGN.md section 6 C14"),
+    "C15": ("TLA+ model: DeEvent stream of DeSM.tla invariant under every single lexical rewrite (and compositions) of serialized family values, model-checked; every rewritten document deserialized and compared with the original value",
+            "TLC renders each generated family value and applies EVERY single rewrite at every applicable site - comment or PI between any two tokens and inside text, whitespace between siblings of element-only content, text as CDATA, as decimal/hexadecimal character references, <x/> vs <x></x>, attribute order, quote kind, spacing, prolog and leading comment, trailing comment/PI - plus compositions, and checks that the DeEvent stream (names, attribute sets, merged unescaped text) computed by DeSM.tla is unchanged. Every rewritten document (also with an unknown attribute and an unknown first/last child where the type ignores unknown fields) is deserialized with from_str and must equal the original value.",
+            "Rewrites that change the event stream (unknown attributes/children) are decided by the real deserializer only.",
+            "DESIGN.md section 6 C15"),
     "C16": ("TLA+ spec: machine stream under a configuration = documented Transform of the neutral grammar stream, model-checked for all 128 configurations; replay on the real reader; trace validation",
             "TLC checks for every input of <= K fragments and all 128 switch combinations (K small) / a pairwise-covering set (K larger) that the reader machine's events and positions equal Transform(cfg, neutral stream), where Transform states only the documented effect of each switch. The same behaviours are executed on the real reader and compared; traces with random configurations are validated. The one recorded deviation (empty Text with trim_text_end only, C16-1) is a named deviation action of the spec and is reported as KNOWN-FINDING.",
             "Bounded scope. Known finding C16-1 is accepted only in its exact recorded shape.",
@@ -62,6 +82,10 @@ CHECKS = {
             "TLC checks for every sequence of <= M events over all ten kinds (unbalanced allowed, Eof last) x indent char x widths that the writer machine's output equals the declarative statement of the property (insertions only of newline + indent immediately before wrapped markup that is not first and does not follow Text/CData; depth saturating at zero), and that reading it back and dropping whitespace-only text gives the plain output's events. The sequences are written with Writer::new / new_with_indent (sync and async) and compared byte for byte, and read back with the real reader; sequences up to 60 events with nesting beyond the preallocated 128 indent bytes and widths 0-9 are validated by TLC. The serde serializer's indentation is checked by C06/C13 (indented and plain serializations deserialize to equal values).",
             "Bounded scope M; traces are samples.",
             "DESIGN.md section 6 C19"),
+    "C20": ("TLA+ queue model (DeSM!Held) of the overlapped-lists replay buffers over all order-preserving interleavings generated by TLC; each interleaving deserialized without and with every buffer limit",
+            "TLC generates, for every value of the structs with two and three list fields (scalar element, attribute, nested same-named children), every order-preserving interleaving of the children together with Held, the number of skipped events the write buffer must hold according to the queue model. The harness deserializes each interleaved document without limit (must equal the value whose contiguous serialization was interleaved) and with event_buffer_size = 1..total+1: the result is that value or TooManyEvents, it is TooManyEvents whenever Held > limit, and raising the limit never turns success into failure.",
+            "Held <= limit but TooManyEvents would be reported as drift only (the property states the other direction).",
+            "DESIGN.md section 6 C20"),
 }
 
 NOT_YET = "check under construction in this revision (planned: TLA+ spec + TLC + conformance replay, see DESIGN.md section 6)"
